@@ -150,6 +150,10 @@ def big_endian_unit(I, src, elem, k, direct=False):
             if isinstance(i, int) and 0 <= i < len(bytes_) and core(v.base).r().endswith("[]"):
                 return Const(bytes_[i])
             return IndexV(subst(v.base, bytes_), subst(v.idx, bytes_))
+        if isinstance(v, MutV) and isinstance(v.base, OpV) and v.base.op == "repeat" and len(v.ops) == 1 and v.ops[0][0] == "call" \
+                and v.ops[0][1] in ("copy_from_slice", "clone_from_slice") and len(v.ops[0]) > 2 and core(v.ops[0][2]).r().endswith("[]"):
+            # `let mut a = [0; k]; a.copy_from_slice(chunk)`: the array holds the chunk's bytes
+            return ArrayV([Const(b_) for b_ in bytes_])
         if isinstance(v, Via):
             return Via(v.name, subst(v.inner, bytes_), v.callee)
         if isinstance(v, CallV):
